@@ -315,10 +315,17 @@ class StmtMixin(BuiltinMixin):
         if isinstance(s.test, ast.Name) and s.test.id == "TYPE_CHECKING":
             return self.exec_block(s.orelse, st, ctx)
         out = []
+        # branch events for path signatures (known findings are identified by their failing history): the contract under
+        # verification may ask for a trace entry whenever an `if` tests one of the named attributes
+        t = s.test.operand if isinstance(s.test, ast.UnaryOp) and isinstance(s.test.op, ast.Not) else s.test
+        watched = (self.cur_contract.env.get("trace_branches", ()) if getattr(self, "cur_contract", None) is not None else ())
+        name = t.attr if isinstance(t, ast.Attribute) and t.attr in watched else None
         for s2, br in self.cond_branches(s.test, st, ctx):
             if isinstance(br, Raise):
                 out.append((s2, br))
             else:
+                if name is not None:
+                    s2.trace.append(f"branch:{name}:{bool(br) != (t is not s.test)}")
                 out.extend(self.exec_block(s.body if br else s.orelse, s2, ctx))
         return out
 
